@@ -29,6 +29,8 @@ def atom_bounds(a):
         return (0, a[2][1])
     if k == 'trunc':
         return (0, 2 ** a[1] - 1)
+    if a in T.BOUNDS:
+        return T.BOUNDS[a]
     ty = T.TYPES.get(a)
     if ty in INT_RANGES:
         return INT_RANGES[ty]
@@ -165,6 +167,14 @@ def _sat_conj0(conj):
     for l in diseq:
         atoms.update(T.to_lin(l)[1])
     lo, hi = {}, {}
+    for a in list(atoms):
+        if a[0] == 'call' and a[1] == 'first_byte':
+            # index of an element that exists: 0 <= i <= len - 1
+            n = T.mk_len(a[2][0])
+            c0, m = T.to_lin(T.sub(T.sub(n, a), T.I(1)))
+            ineqs.append((dict(m), c0))
+            ineqs.append(({a: 1}, 0))
+            atoms.update(m)
     for a in atoms:
         l, h = atom_bounds(a)
         if l is not None:
